@@ -4,33 +4,11 @@ PROOF_NOTE = ("Trusted: z3 5.1 / cvc5 1.0.3 'unsat' answers; the SymPy-node -> S
               "on every run at each cover model against numpy evaluation of the real tree; floats treated as exact reals (A-arith); "
               "per-event semantics of array expressions (A-batch). ")
 
-CHECKS = {
-    "C08": {
-        "engine": "E1 exprvc + E2 npvc",
-        "level": "proof",
-        "technique": "contract-based deductive verification: SMT-discharged postconditions on the SymPy trees returned by the real functions and on the generated numpy source",
-        "text": "Every equation of the statement (L^T eta L = eta, det 1, L00>=1, rest frame, inverse = boost of negated momentum, z-boost = general boost along z, "
-                "additive composition, generated code = explicit matrix for cse on/off) is an SMT obligation over all real momenta with E>0, E^2>|p|^2, |p|>0 and all angles, "
-                "generated from the current source on every run; discrete structure (4 classes, cse flag, einsum chain lengths 1..18) is enumerated exhaustively.",
-        "note": PROOF_NOTE + "requires |p|>0 for the general boost (0/0 at rest). Floating-point conditioning over orders of magnitude of beta*gamma is not decided.",
-    },
-    "C20": {
-        "engine": "E1 exprvc",
-        "level": "proof",
-        "technique": "contract-based deductive verification: SMT-discharged postconditions and lemma chain on the SymPy trees returned by the real functions",
-        "text": "Third Mandelstam = actual invariant mass squared, Kibble <= 0 and indicator = 1 on every physical event (Gram + Lagrange identities), indicator = 1 iff sigma2 within the "
-                "PDG limits on the bounding box else the caller's outside value (factorisation over sqrt(sigma1) + sign lemma), Kallen totally symmetric and factorised: all as SMT "
-                "obligations over all real values, no bound.",
-        "note": PROOF_NOTE + "Lemma obligations (body meets spec, Gram/Lagrange/factor identities) are internal proof steps; a refuted lemma is reported as a violation only when the "
-                "property-level replay on the real code reproduces a failure.",
-    },
-}
-
 _PENDING = "check not built yet in this round (planned in DESIGN.md section 3); not claimed until its machinery exists"
 NOT_APPLICABLE = {
     "C04": "rotation invariance relates values on two different events through SU(2) representation theory composed with acos/atan2 of boosted momenta; "
            "no per-function contract implies it and the single-formula form is far outside nlsat/cvc5 (DESIGN.md section 6)",
-    **{f"C{i:02d}": _PENDING for i in range(1, 21) if i not in (4, 8, 20)},
+    **{f"C{i:02d}": _PENDING for i in range(1, 21) if i != 4},
 }
 
 NOTES = ("Technique family: contract-based deductive verification of the real code. Contracts are sidecar files (contracts/*.py) keyed by the qualified names of "
